@@ -186,7 +186,7 @@ func TestC19(t *testing.T) {
 	defer r.Finish()
 	r.Rule("per router × sequence: a universe per batch of sequences (net id ∈ {main,test,solo}, 4-7 poly validators installed through node_manager), per sequence a new " +
 		"side chain of the router registered+approved through side_chain_manager at a drawn poly height, first genesis G1 (height on the router's epoch grid, 1-21 " +
-		"validators, random roots; recorded blobs for zilliqa/zilliqalegacy/starcoin) must succeed, then 2-4 later syncGenesisHeader attempts at advancing poly " +
+		"validators, random roots; recorded blobs for zilliqa/zilliqalegacy/starcoin; in one third of the sequences a degenerate-but-accepted document: every field the light client does not need zero / empty, e.g. a tendermint header whose hash is nil) must succeed, then 2-4 later syncGenesisHeader attempts at advancing poly " +
 		"heights, each G1 again or a G2 differing in {height, validators, #validators, other header fields, all}, signed by the consensus operator (1 in 6 only by the " +
 		"chain owner); every G2 is first proved acceptable as a first genesis on another freshly registered chain of the same router; " +
 		"distinct = (router, kind, signer, outcome class, position, net id, #validators bucket)")
@@ -226,29 +226,58 @@ func TestC19(t *testing.T) {
 			w := ar.w
 			w.E.Height = polyHeight(rng, sc)
 			p1 := drawParams(rng, rd)
-			g1, err := rd.Build(p1)
-			if err != nil {
-				setupErr = fmt.Sprintf("build G1 %+v: %v", p1, err)
-				r.Count("setup_failed:"+rd.Name, 1)
-				continue
+			// one third of the sequences try a degenerate-but-well-formed first genesis (every field the
+			// light client does not need left zero / empty) where the router's builder has such a variant
+			// and the router accepts it; otherwise the ordinary document is installed
+			var cands []gparams
+			if seq%3 == 1 {
+				pm := p1
+				pm.Minimal = true
+				gm, errm := rd.Build(pm)
+				g0, err0 := rd.Build(p1)
+				if errm == nil && err0 == nil && !bytes.Equal(gm, g0) {
+					cands = append(cands, pm)
+				}
 			}
-			chainID, err := ar.newChain(rd)
-			if err != nil {
-				setupErr = fmt.Sprintf("register chain in %+v: %v", sc, err)
-				r.Count("setup_failed:"+rd.Name, 1)
-				continue
-			}
+			cands = append(cands, p1)
+			var g1 []byte
+			var chainID uint64
+			var empty string
 			op := nat.Operator(w.Vals)
-			empty := w.E.Digest(hs)
-			rec := w.E.Call(utils.HeaderSyncContractAddress, hscommon.SYNC_GENESIS_HEADER, genesisArgs(chainID, g1), op)
-			if !rec.Ok {
-				setupErr = fmt.Sprintf("G1 refused %+v %+v: %s", sc, p1, rec.Err)
-				r.Count("setup_failed:"+rd.Name, 1)
-				continue
+			installed := false
+			for _, pc := range cands {
+				g, err := rd.Build(pc)
+				if err != nil {
+					setupErr = fmt.Sprintf("build G1 %+v: %v", pc, err)
+					break
+				}
+				cid, err := ar.newChain(rd)
+				if err != nil {
+					setupErr = fmt.Sprintf("register chain in %+v: %v", sc, err)
+					break
+				}
+				e0 := w.E.Digest(hs)
+				rec := w.E.Call(utils.HeaderSyncContractAddress, hscommon.SYNC_GENESIS_HEADER, genesisArgs(cid, g), op)
+				stored := rec.Ok && w.E.Digest(hs) != e0
+				if pc.Minimal {
+					if !stored {
+						r.Count("minimal_first_genesis_not_accepted:"+rd.Name, 1)
+						continue
+					}
+					r.Count("first_minimal_ok:"+rd.Name, 1)
+					r.Count("first_minimal_ok", 1)
+				} else if !rec.Ok {
+					setupErr = fmt.Sprintf("G1 refused %+v %+v: %s", sc, pc, rec.Err)
+					break
+				} else if !stored {
+					// accepted but nothing stored: there is no trust root to protect, not a usable sequence
+					setupErr = fmt.Sprintf("G1 accepted without storing anything %+v %+v", sc, pc)
+					break
+				}
+				p1, g1, chainID, empty, installed = pc, g, cid, e0, true
+				break
 			}
-			if w.E.Digest(hs) == empty {
-				// accepted but nothing stored: there is no trust root to protect, not a usable sequence
-				setupErr = fmt.Sprintf("G1 accepted without storing anything %+v %+v", sc, p1)
+			if !installed {
 				r.Count("setup_failed:"+rd.Name, 1)
 				continue
 			}
@@ -360,7 +389,7 @@ func TestC19(t *testing.T) {
 				if p2.NVals >= 8 {
 					nb = "many"
 				}
-				r.Distinct(rd.Name, kind, signer, class, pos+1, sc.NetID, nb)
+				r.Distinct(rd.Name, kind, signer, class, pos+1, sc.NetID, nb, p1.Minimal)
 				if kind == "same" {
 					r.Count("later_same:"+rd.Name, 1)
 				} else {
@@ -424,5 +453,7 @@ func TestC19(t *testing.T) {
 	}
 	r.Set("outcome_by_router", classes)
 	r.Require("routers_covered", 20)
+	r.Require("first_minimal_ok", nseq)
+	r.Require("first_minimal_ok:heimdall", 1)
 	r.Require("rejected", 10*nseq)
 }
